@@ -20,6 +20,11 @@ def run(chk, F, tier, pairs, tabs, info):
     for inst in insts:
         fam = "normal" if "StandardNormal" in inst["key"] else "exp"
         key = "ziggurat<%s>" % fam
+        if inst["arg_count"] == 6:
+            # the two tables are the third and fourth parameter (rng, symmetric, X, F, pdf, zero_case); the rules call them x_tab and f_tab whatever the source does
+            inst = dict(inst)
+            inst["locals"] = [dict(l) for l in inst["locals"]]
+            inst["locals"][3]["name"], inst["locals"][4]["name"] = "x_tab", "f_tab"
         T = Terms(F, inst)
         names = {l.get("name"): i for i, l in enumerate(inst["locals"]) if l.get("name")}
         where = span_str(inst.get("span"))
